@@ -978,4 +978,66 @@ theorem goodCheck_sound (n : Nat) (p : Pattern) (h : goodCheck n p = true) : Goo
       · exact absurd heq h2
       · exact h2
 
+/-! ### `Factor` then `Solve` -/
+
+/-- if the arrays hold (as views) the dense Doolittle factors of `Am` and no pivot vanishes,
+    `solveCell` solves `Am y = b` -/
+theorem solve_of_views (Lp Up : Pattern) (L U b : Array K) (n : Nat) (Am : Nat → Nat → K)
+    (hnL : Lp.n = n) (hb : b.size = n)
+    (hv : ∀ r c, r < n → c < n → view Lp L r c = (DenseLU.lu Am n).L r c ∧
+      view Up U r c = (DenseLU.lu Am n).U r c)
+    (hpiv : ∀ i, i < n → view Up U i i ≠ 0) (i : Nat) (hi : i < n) :
+    ∑ j ∈ range n, Am i j * rd (solveCell (solverRows Lp Up).1 (solverRows Lp Up).2 L U b) j
+      = rd b i := by
+  have hlu := DenseLU.lu_isLU Am n (fun i hi => by rw [← (hv i i hi hi).2]; exact hpiv i hi)
+  rw [← solveCell_correct Lp Up L U b n hnL hb
+    (fun i hi => by rw [(hv i i hi hi).1, hlu.L_diag i hi]; exact one_ne_zero)
+    (fun i j hi hj hij => by rw [(hv i j hi hj).1]; exact hlu.L_up i j hi hj hij) hpiv
+    (fun i j hi hj hji => by rw [(hv i j hi hj).2]; exact hlu.U_low i j hi hj hji) i hi]
+  apply sum_congr rfl
+  intro j hj
+  have hj' := mem_range.mp hj
+  rw [← hlu.prod i j hi hj']
+  congr 1
+  apply sum_congr rfl
+  intro k hk
+  have hk' := mem_range.mp hk
+  rw [(hv i k hi hk').1, (hv k j hk' hj').2]
+
+/-- in-place version: the single array holds strict-lower `L` and `U` of the dense factors -/
+theorem solve_of_view_inplace (P : Pattern) (M b : Array K) (n : Nat) (Am : Nat → Nat → K)
+    (hnP : P.n = n) (hb : b.size = n)
+    (hv : ∀ r c, r < n → c < n → view P M r c
+      = if c < r then (DenseLU.lu Am n).L r c else (DenseLU.lu Am n).U r c)
+    (hpiv : ∀ i, i < n → view P M i i ≠ 0) (i : Nat) (hi : i < n) :
+    ∑ j ∈ range n, Am i j * rd (solveInPlaceCell (solverRows P P).1 (solverRows P P).2 M b) j
+      = rd b i := by
+  have hd : ∀ i, i < n → view P M i i = (DenseLU.lu Am n).U i i := by
+    intro i hi
+    have := hv i i hi hi
+    simpa using this
+  have hlu := DenseLU.lu_isLU Am n (fun i hi => by rw [← hd i hi]; exact hpiv i hi)
+  rw [← solveInPlaceCell_correct P M b n hnP hb hpiv i hi]
+  apply sum_congr rfl
+  intro j hj
+  have hj' := mem_range.mp hj
+  rw [← hlu.prod i j hi hj']
+  congr 1
+  apply sum_congr rfl
+  intro k hk
+  have hk' := mem_range.mp hk
+  have e1 : lowerUnit (view P M) i k = (DenseLU.lu Am n).L i k := by
+    unfold lowerUnit
+    split
+    · next h => rw [hv i k hi hk', if_pos h]
+    · split
+      · next h1 h2 => subst h2; exact (hlu.L_diag i hi).symm
+      · next h1 h2 => exact (hlu.L_up i k hi hk' (by omega)).symm
+  have e2 : upperPart (view P M) k j = (DenseLU.lu Am n).U k j := by
+    unfold upperPart
+    split
+    · next h => rw [hv k j hk' hj', if_neg (by omega)]
+    · next h => exact (hlu.U_low k j hk' hj' (by omega)).symm
+  rw [e1, e2]
+
 end Micm
